@@ -112,6 +112,33 @@ def let_slot_programs():
     return out
 
 
+def polymorphic_site_programs(limit=None, rng=None):
+    """ONE call instruction executed several times with receivers of different classes: an object that defines the method, one that inherits it, one that overrides
+    the inherited one, one that inherits it through two levels - in every order (each execution looks the method up afresh, and `this` is the object that defines it)"""
+    kinds = {'def': 'object begin let tag = 2; function who(k) -> begin print("def.who ~ ~;", this.tag, k); this.tag + k end end',
+             'inh': 'object extends base begin let tag = 3 end',
+             'ovr': 'object extends base begin let tag = 4; function who(k) -> begin print("ovr.who ~ ~;", this.tag, k); this.tag - k end end',
+             'inh2': 'object extends (object extends base begin let tag = 5 end) begin let tag = 6 end',
+             'ovr2': 'object extends (object extends base begin let tag = 7; function who(k) -> begin print("mid.who ~ ~;", this.tag, k); this.tag * k end end) begin let tag = 8 end'}
+    out = []
+    names = sorted(kinds)
+    for n in (2, 3, 4):
+        for seq in itertools.product(names, repeat=n):
+            if len(set(seq)) < 2:
+                continue
+            fill = '; '.join('xs[%d] <- %s' % (i, kinds[k]) for i, k in enumerate(seq))
+            text = ('let base = object begin let tag = 1; function who(k) -> begin print("base.who ~ ~;", this.tag, k); this.tag end end; function call(s, k) -> s.who(k); '
+                    'let xs = array(%d, null); %s; let i = 0; while i < %d do begin print("-> ~\\n", call(xs[i], i)); i <- i + 1 end; '
+                    'i <- 0; while i < %d do begin xs[%d - 1 - i].who(i); i <- i + 1 end; print("\\n")' % (n, fill, n, n, n))
+            out.append({'name': 'polysite:' + '/'.join(seq), 'text': text, 'ast': None})
+    if limit is not None and len(out) > limit:
+        rng = rng or random.Random(seed())
+        two = [p for p in out if p['name'].count('/') == 1]
+        rest = [p for p in out if p not in two]
+        out = two + rng.sample(rest, max(0, limit - len(two)))
+    return out
+
+
 def sandwich_programs():
     """a definition with its own control flow between two pieces of control flow of the enclosing body, in every frame kind (labels, temporaries and slots are
     numbered per compilation unit: what is counted before, inside and after a nested definition must not collide)"""
